@@ -399,6 +399,14 @@ pub trait Space<VM: VMBinding>: 'static + SFT + Sync + Downcast {
             .verify_metadata_context(std::any::type_name::<Self>(), &self.common().metadata)
     }
 
+    /// Verification hook (feature `verif`): the (global, local) side metadata specs of this
+    /// space's metadata context, i.e. what `verify_side_metadata_sanity` hands to the checker.
+    #[cfg(feature = "verif")]
+    fn verif_side_metadata_specs(&self) -> (Vec<SideMetadataSpec>, Vec<SideMetadataSpec>) {
+        let m = &self.common().metadata;
+        (m.global.clone(), m.local.clone())
+    }
+
     /// Enumerate objects in the current space.
     ///
     /// Implementers can use the `enumerator` to report
